@@ -490,6 +490,9 @@ func main() {
 		}
 	})
 	r.Set("traces_validated_against_impl", r.Get("transitions")+r.Get("proofs")+r.Get("tampered_proofs"))
+	if !inWorkerProc() && r.Only == "" {
+		densePart(r)
+	}
 	r.Set("explanation", "states = all maps over 4 adversarial key universes x 2 subtree heights reached by BFS; transitions = real trie.Update calls (every batch of <=2/3 keys incl. reversed/permuted orders) on a trie reopened from its stored nodes, root compared with the recursive LIP-0039 root; then for every map every query set and every single-field tampering through smt.Verify with the soundness oracle")
 	r.Finish()
 }
@@ -517,4 +520,76 @@ func subtreeHeights() []int {
 		return []int{4}
 	}
 	return []int{8, 4}
+}
+
+func inWorkerProc() bool { return os.Getenv("VERIF_WORKER") != "" }
+
+// densePart: fully and almost fully populated subtrees. Two keys under each of the first N values of the first key
+// byte (N = 1, 2, 255, 256): with the default subtree height 8 the top subtree then has N stubs, 256 being the
+// largest number of nodes a stored subtree can hold. Roots against the reference, then the trie is reopened and
+// must prove and update correctly.
+func densePart(r *vlib.Run) {
+	for _, sh := range subtreeHeights() {
+		for _, n := range []int{1, 2, 255, 256} {
+			c := caseT{Universe: fmt.Sprintf("dense-%d", n), Subtree: sh}
+			m := map[string][]byte{}
+			keys, vs := [][]byte{}, [][]byte{}
+			for b := 0; b < n; b++ {
+				for _, lo := range []byte{0x00, 0x80} {
+					k := []byte{byte(b), lo}
+					keys = append(keys, k)
+					vs = append(vs, vals[1])
+					m[string(k)] = vals[1]
+				}
+			}
+			db := newMem()
+			t := smt.NewTrie(nil, 2)
+			t.SetSubtreeHeight(uint8(sh))
+			var root []byte
+			var err error
+			if p := vlib.Catch(func() { root, err = t.Update(db, keys, vs) }); p != "" || err != nil {
+				r.Violation(fmt.Sprintf("dense-update-fails:sh%d", sh), fmt.Sprintf("Update of %d keys (two under each of %d first bytes) fails: %v %s", len(keys), n, err, p), c)
+				continue
+			}
+			r.Add("transitions", 1)
+			if !bytes.Equal(root, ref.SMTRoot(m)) {
+				r.Violation(fmt.Sprintf("dense-root-differs:sh%d", sh), fmt.Sprintf("root of %d keys (two under each of %d first bytes) is not the LIP-0039 root", len(keys), n), c)
+				continue
+			}
+			// reopen: prove present and absent keys, then change one key and delete another
+			t2 := smt.NewTrie(root, 2)
+			t2.SetSubtreeHeight(uint8(sh))
+			q := [][]byte{{0, 0x00}, {byte(n - 1), 0x80}, {byte(n - 1), 0x40}, {0xff, 0xff}}
+			var proof *smt.Proof
+			if p := vlib.Catch(func() { proof, err = t2.Prove(db, q) }); p != "" || err != nil {
+				r.Violation(fmt.Sprintf("dense-reopen-prove-fails:sh%d", sh), fmt.Sprintf("a trie of %d keys (two under each of %d first bytes) reopened from its stored nodes cannot prove: %v %s", len(keys), n, err, p), c)
+				continue
+			}
+			if ok, verr := smt.Verify(q, proof, root, 2); !ok || verr != nil {
+				r.Violation(fmt.Sprintf("dense-reopen-proof-invalid:sh%d", sh), fmt.Sprintf("proof from the reopened dense trie (%d first bytes) does not verify: %v", n, verr), c)
+				continue
+			}
+			if agree, why := claimsAgree(m, q, proof); !agree {
+				r.Violation(fmt.Sprintf("dense-proof-wrong-claim:sh%d", sh), why, c)
+			}
+			m2 := map[string][]byte{}
+			for k, v := range m {
+				m2[k] = v
+			}
+			m2[string([]byte{0, 0x00})] = vals[2]
+			delete(m2, string([]byte{byte(n - 1), 0x80}))
+			var root2 []byte
+			if p := vlib.Catch(func() {
+				root2, err = t2.Update(db, [][]byte{{0, 0x00}, {byte(n - 1), 0x80}}, [][]byte{vals[2], {}})
+			}); p != "" || err != nil {
+				r.Violation(fmt.Sprintf("dense-reopen-update-fails:sh%d", sh), fmt.Sprintf("updating the reopened dense trie (%d first bytes) fails: %v %s", n, err, p), c)
+				continue
+			}
+			r.Add("transitions", 1)
+			if !bytes.Equal(root2, ref.SMTRoot(m2)) {
+				r.Violation(fmt.Sprintf("dense-root-differs-after-update:sh%d", sh), fmt.Sprintf("root after changing one key and deleting one in the dense trie (%d first bytes) is not the LIP-0039 root", n), c)
+			}
+			r.Add("dense_tries_checked", 1)
+		}
+	}
 }
